@@ -52,7 +52,9 @@ Definition m_src (m : meth) : src :=
   | Mname | Mppid | Mcpu_times | Mcpu_num => Stat
   | Muids | Mgids | Mnum_threads | Mnum_ctx => Status
   | Mmemory_info => Statm
-  | Mmemory_full | Mmemory_maps => Smaps      (* memory_maps() builds a new list from the smaps text on every call *)
+  | Mmemory_full | Mmemory_maps => Smaps      (* memory_maps() builds a new list from the smaps text on every call;
+                                                 memory_full_info(): the _read_smaps_file path -- where /proc/<pid>/smaps_rollup
+                                                 exists and is readable it is used instead, un-memoized (live cases) *)
   end.
 (* _parse_stat_file, _read_status_file, _read_smaps_file are memoized; statm is read directly *)
 Definition memoized (s : src) : bool := negb (src_eqb s Statm).
